@@ -580,7 +580,10 @@ def run_task(task):
                           "consume": trace["consume"], "knobs": trace["knobs"],
                           "outcome": type(rec["exc"]).__name__ if rec["exc"] else f"{len(rec['frames'])} object(s)",
                           "message": str(rec["exc"])[:200] if rec["exc"] else None, "steps": rec["steps"]}
-    return {"n": n, "digest": common.short(repr(dig)), "violations": viols, "stats": stats.export(), "sample": sample}
+    # odigest: outcomes only (the logical step count of the QCSchema parser depends on PYTHONHASHSEED
+    # because it iterates over Python sets; the launcher pins the hash seed)
+    return {"n": n, "digest": common.short(repr(dig)), "odigest": common.short(repr([d[:-1] for d in dig])),
+            "violations": viols, "stats": stats.export(), "sample": sample}
 
 
 # ------------------------------------------------------------------------------------------------
